@@ -264,7 +264,8 @@ func (md *DICompileUnit) LLString() string {
 		field = fmt.Sprintf("dwoId: %d", md.DwoID)
 		fields = append(fields, field)
 	}
-	if md.SplitDebugInlining {
+	// splitDebugInlining is true when absent (as in LLVM).
+	if !md.SplitDebugInlining {
 		field = fmt.Sprintf("splitDebugInlining: %t", md.SplitDebugInlining)
 		fields = append(fields, field)
 	}
@@ -818,10 +819,9 @@ func (md *DIGlobalVariable) LLString() string {
 		field := fmt.Sprintf("isLocal: %t", md.IsLocal)
 		fields = append(fields, field)
 	}
-	if md.IsDefinition {
-		field := fmt.Sprintf("isDefinition: %t", md.IsDefinition)
-		fields = append(fields, field)
-	}
+	// isDefinition is true when absent (as in LLVM): always spelled out.
+	field := fmt.Sprintf("isDefinition: %t", md.IsDefinition)
+	fields = append(fields, field)
 	if md.TemplateParams != nil {
 		field := fmt.Sprintf("templateParams: %s", md.TemplateParams)
 		fields = append(fields, field)
@@ -1877,8 +1877,9 @@ func (md *DISubprogram) LLString() string {
 	// definition or not.
 	//
 	// For this reason, we output isDefinition if it has a non-zero value or if
-	// !DISubProgram is not distinct.
-	if md.IsDefinition || !md.Distinct {
+	// !DISubProgram is not distinct. Without spFlags, isDefinition is true when
+	// absent (as in LLVM), so false is spelled out then as well.
+	if md.IsDefinition || !md.Distinct || md.SPFlags == 0 {
 		field := fmt.Sprintf("isDefinition: %t", md.IsDefinition)
 		fields = append(fields, field)
 	}
